@@ -117,6 +117,7 @@ func c13RouteSetup() error {
 		return err
 	}
 	c13Tmp = d
+	c13Roots = map[string]string{}
 	casket.AppName, casket.AppVersion = "Casket", "verif"
 	return nil
 }
@@ -184,18 +185,17 @@ func c13Casketfile(rules string) string {
 	return b.String()
 }
 
-func c13RouteEval(f []string) (string, []string) {
-	cs, rules, files, method := f[0] == "1", f[1], f[2], f[3]
-	path, query, hdrs, body, remote, te := hx.UnHS(f[4]), hx.UnHS(f[5]), hx.UnHS(f[6]), hx.UnH(f[7]), f[8], f[9]
+// c13RouteSite is one fastcgi middleware built from Casketfile text over a materialised site root.
+type c13RouteSite struct {
+	handler    httpserver.Handler
+	root       string
+	nextCalled bool
+}
+
+func c13RouteHandler(rules, files string) (*c13RouteSite, string) {
 	root, err := c13Root(files)
 	if err != nil {
-		return "setup-error:" + err.Error(), nil
-	}
-	// drain stale answers
-	for _, r := range c13Resp {
-		for len(r.got) > 0 {
-			<-r.got
-		}
+		return nil, "setup-error:" + err.Error()
 	}
 	c := casket.NewTestController("http", c13Casketfile(rules))
 	cfg := httpserver.GetConfig(c)
@@ -203,21 +203,43 @@ func c13RouteEval(f []string) (string, []string) {
 	cfg.Addr = httpserver.Address{Host: "example.test", Port: "8080"}
 	action, err := casket.DirectiveAction("http", "fastcgi")
 	if err != nil {
-		return "setup-error:" + err.Error(), nil
+		return nil, "setup-error:" + err.Error()
 	}
 	if err := action(c); err != nil {
-		return "setup-error:" + err.Error(), nil
+		return nil, "setup-error:" + err.Error()
 	}
 	mids := cfg.Middleware()
 	if len(mids) != 1 {
-		return "setup-error:middleware", nil
+		return nil, "setup-error:middleware"
 	}
-	nextCalled := false
-	handler := mids[0](httpserver.HandlerFunc(func(w http.ResponseWriter, r *http.Request) (int, error) {
-		nextCalled = true
+	site := &c13RouteSite{root: root}
+	site.handler = mids[0](httpserver.HandlerFunc(func(w http.ResponseWriter, r *http.Request) (int, error) {
+		site.nextCalled = true
 		return 0, nil
 	}))
+	return site, ""
+}
 
+func c13RouteEval(f []string) (string, []string) {
+	site, e := c13RouteHandler(f[1], f[2])
+	if site == nil {
+		return e, nil
+	}
+	return c13RouteServe(site, f[0] == "1", f[3:])
+}
+
+// c13RouteServe sends one request (method path query headers body remote te) through the site.
+func c13RouteServe(site *c13RouteSite, cs bool, f []string) (string, []string) {
+	method := f[0]
+	path, query, hdrs, body, remote, te := hx.UnHS(f[1]), hx.UnHS(f[2]), hx.UnHS(f[3]), hx.UnH(f[4]), f[5], f[6]
+	root, handler := site.root, site.handler
+	site.nextCalled = false
+	// drain stale answers
+	for _, r := range c13Resp {
+		for len(r.got) > 0 {
+			<-r.got
+		}
+	}
 	target := (&url.URL{Path: path}).EscapedPath()
 	if path == "" {
 		target = "http://example.test:8080"
@@ -291,7 +313,7 @@ func c13RouteEval(f []string) (string, []string) {
 		}
 	}
 	switch {
-	case nextCalled:
+	case site.nextCalled:
 		if _, err := os.Stat(root + path); err == nil {
 			return "next", append(tags, "next-existing")
 		}
@@ -390,7 +412,88 @@ func c13RouteGen(g *hx.Gen) {
 	}
 }
 
+// c13.routeseq: several requests one after the other through ONE fastcgi middleware in one process:
+// whatever the handler or the package keeps between requests must not show in what the next responder
+// receives.  Fields: cs rules files, then method path query headers body remote te per request.
+func c13RouteSeqEval(f []string) (string, []string) {
+	if len(f) < 10 || (len(f)-3)%7 != 0 {
+		return "bad-case", nil
+	}
+	site, e := c13RouteHandler(f[1], f[2])
+	if site == nil {
+		return e, nil
+	}
+	var outs []string
+	sent := 0
+	for i := 3; i+6 < len(f); i += 7 {
+		out, tags := c13RouteServe(site, f[0] == "1", f[i:i+7])
+		outs = append(outs, out)
+		for _, t := range tags {
+			if t == "sent" {
+				sent++
+			}
+		}
+	}
+	tags := []string{"requests=" + fmt.Sprint(len(outs))}
+	if sent < 2 {
+		tags = append(tags, "trivial-fewer-than-two-sent")
+	} else {
+		tags = append(tags, "sent>=2")
+	}
+	return strings.Join(outs, "\t"), tags
+}
+
+func c13RouteSeqGen(g *hx.Gen) {
+	r := g.Rng
+	// configurations and methods without known findings (no HEAD/OPTIONS bodies, split inside the extension)
+	ruleSets := []string{"/|.php|.php|index.php||", "/|.php|.php|index.php||APP_ENV=prod,DB=x", "/app|.php|.php|index.php||K=1;;/|.cgi|.cgi|||Z=2"}
+	files := "a.php,app/x.php,app/index.php,UP.PHP,b.txt,index.php,app/q.cgi"
+	paths := []string{"/a.php", "/a.php/extra/info", "/app/x.php", "/app/", "/UP.PHP/report.php", "/index.php", "/app/index.php/a/b", "/a.php", "/app/x.php/pi", "/b.txt", "/missing.php"}
+	hdrLines := []string{"X-Foo: bar", "X-Secret-Token: t0ps3cret", "Accept: */*", "Cookie: session=abc", "Content-Type: application/json", "Authorization: Basic dTpw", "X-With-Dash-And-9: 9", "User-Agent: verif/1.0"}
+	remotes := []string{"192.0.2.1:1234", "[2001:db8::1]:443", "198.51.100.7:80"}
+	req := func() []string {
+		var hs []string
+		seen := map[string]bool{}
+		for k := r.Intn(4); k > 0; k-- {
+			l := hx.Pick(r, hdrLines)
+			if !seen[l] {
+				seen[l] = true
+				hs = append(hs, l)
+			}
+		}
+		method := hx.Pick(r, []string{"GET", "GET", "POST", "PUT"})
+		var body []byte
+		te := "none"
+		if method != "GET" || r.Chance(1, 4) {
+			body = []byte(c13Filler(r.Intn(26), hx.Pick(r, []int{1, 5, 100, 3000})))
+			te = hx.Pick(r, []string{"cl", "cl", "chunked"})
+		}
+		return []string{method, hx.HS(hx.Pick(r, paths)), hx.HS(hx.Pick(r, []string{"", "a=1&b=2"})), hx.HS(strings.Join(hs, "\n")), hx.H(body), hx.Pick(r, remotes), te}
+	}
+	// a request with many headers and a body, then a bare GET: nothing of the first may reach the second
+	rich := []string{"POST", hx.HS("/a.php/extra/info"), hx.HS("tok=1"), hx.HS("X-Secret-Token: t0ps3cret\nCookie: session=abc\nAuthorization: Basic dTpw\nContent-Type: application/json"), hx.H([]byte(c13Filler(3, 500))), remotes[1], "cl"}
+	bare := []string{"GET", hx.HS("/app/x.php"), hx.HS(""), hx.HS(""), "", remotes[0], "none"}
+	for _, rs := range ruleSets {
+		g.Case(append(append([]string{"0", rs, files}, rich...), bare...)...)
+		g.Case(append(append(append([]string{"0", rs, files}, bare...), rich...), bare...)...)
+	}
+	n := 60
+	if g.Thorough() {
+		n = 2000
+	}
+	for i := 0; i < n; i++ {
+		f := []string{"0", hx.Pick(r, ruleSets), files}
+		for k := 2 + r.Intn(2); k > 0; k-- {
+			f = append(f, req()...)
+		}
+		g.Case(f...)
+	}
+}
+
 func init() {
+	// the sequences first: a case of c13.routeseq carries its own history and replays on its own
+	hx.Register(&hx.Stream{ID: "C13", Name: "c13.routeseq", Gen: c13RouteSeqGen, Eval: c13RouteSeqEval,
+		Serial: true, Setup: c13RouteSetup, Teardown: c13RouteTeardown})
 	hx.Register(&hx.Stream{ID: "C13", Name: "c13.route", Gen: c13RouteGen, Eval: c13RouteEval,
 		Serial: true, Setup: c13RouteSetup, Teardown: c13RouteTeardown})
 }
